@@ -246,7 +246,8 @@ let arun_file (path : string) =
      | Some s -> let m = s.base in
        let inslots = if m.freed then [] else List.filter (fun v -> v <> N0) m.slots in
        let live = List.sort compare (List.map int_of_n (if m.owned then inslots @ !lost else [])) in
-       Printf.printf "live=[%s]\n" (String.concat "," (List.map string_of_int live))
+       Printf.printf "live=[%s]\n" (String.concat "," (List.map string_of_int live));
+       if !vmem then print_endline "maps=0"      (* both views are unmapped once the buffer is gone *)
      | None -> ());
     cur := None; lost := [] in
   (try
@@ -255,6 +256,7 @@ let arun_file (path : string) =
        if l = "" || l.[0] = '#' then (if l <> "" then (finish (); print_endline l))
        else if String.length l > 3 && String.sub l 0 3 = "cfg" then begin
          finish ();
+         vmem := List.mem "vmem=1" (String.split_on_char ' ' l);
          match init (parse_cfg l) with
          | None -> print_endline "init panic"
          | Some m -> let s = a_init_state m in cur := Some s; print_endline ("init ok | " ^ aobs s ^ " | ev= | at=")
@@ -569,22 +571,9 @@ let gen_life seed count =
   done
 
 
-(* model arand <seed> <count> <min> <max> : async histories (ConcurrentHeapRB through split_async / split_mut_async) *)
-let gen_arand seed count lo hi =
-  seed_rng seed;
-  for h = 1 to count do
-    let g = { nextv = 100 } in
-    let owned = chance 25 in
-    let len = pick [1; 2; 2; 3; 3; 4; 5; 8] in
-    let st = pick [2; 3; 3] in
-    let init = if owned then fresh_vals g len else (if chance 50 then List.init len (fun _ -> 0) else fresh_vals g len) in
-    Printf.printf "# arand seed=%d n=%d\ncfg kind=async store=heap stages=%d item=%s ctor=from init=%s\n" seed h st (if owned then "owned" else "plain") (csv init);
-    let cfg = { c_init = List.map n_of_int init; c_worker = (st = 3); c_heap = true; c_owned = owned } in
-    match init_state_of cfg with
-    | None -> ()
-    | Some s0 ->
+(* the random part of an async history, from state s0 (shared by arand and varand) *)
+let arand_body (g : genst) (owned : bool) (s0 : astate) (n : int) (cap : int) =
       let s = ref s0 in
-      let n = lo + rnd (hi - lo + 1) in
       (try
          for _ = 1 to n do
            let m = !s.base in
@@ -597,7 +586,7 @@ let gen_arand seed count lo hi =
            let a = avail_i k m in
            let futop_for k =
              let a = avail_i k m in
-             let small () = if chance 70 then rnd (a + 1) else rnd (len_i m + 2) in
+             let small () = let v = (if chance 70 then rnd (a + 1) else rnd (len_i m + 2)) in if v > cap && chance 90 then rnd (cap + 1) else v in
              match k with
              | P -> (match rnd 8 with
                  | 0 | 1 | 2 -> Printf.sprintf "push %d" (List.hd (fresh_vals g 1))
@@ -661,6 +650,47 @@ let gen_arand seed count lo hi =
            s := s'
          done
        with Exit -> ())
+
+(* model arand <seed> <count> <min> <max> : async histories (ConcurrentHeapRB through split_async / split_mut_async) *)
+let gen_arand seed count lo hi =
+  seed_rng seed;
+  for h = 1 to count do
+    let g = { nextv = 100 } in
+    let owned = chance 25 in
+    let len = pick [1; 2; 2; 3; 3; 4; 5; 8] in
+    let st = pick [2; 3; 3] in
+    let init = if owned then fresh_vals g len else (if chance 50 then List.init len (fun _ -> 0) else fresh_vals g len) in
+    Printf.printf "# arand seed=%d n=%d\ncfg kind=async store=heap stages=%d item=%s ctor=from init=%s\n" seed h st (if owned then "owned" else "plain") (csv init);
+    let cfg = { c_init = List.map n_of_int init; c_worker = (st = 3); c_heap = true; c_owned = owned } in
+    match init_state_of cfg with
+    | None -> ()
+    | Some s0 -> arand_body g owned s0 (lo + rnd (hi - lo + 1)) max_int
+  done
+
+(* model varand <seed> <count> <min> <max> : async histories for the vmem + async build: heap buffers of 1-2 pages (4096 items per
+   page unit), every iterator first moved next to the physical end through the async wrappers' own `advance`, then the arand operations
+   around the seam (the futures of slice operations hand out ONE mirrored slice) *)
+let gen_varand seed count lo hi =
+  seed_rng seed;
+  for h = 1 to count do
+    let g = { nextv = 100 } in
+    let pages = pick [1; 1; 2] in
+    let len = 4096 * pages in
+    let st = pick [2; 3; 3] in
+    let ctor = pick ["from"; "zeroed"] in
+    let init = if ctor = "from" then List.init len (fun i -> 1 + (i mod 250)) else List.init len (fun _ -> 0) in
+    Printf.printf "# varand seed=%d n=%d\ncfg kind=async store=heap stages=%d item=plain ctor=%s vmem=1 init=%s\n" seed h st ctor (csv init);
+    let cfg = { c_init = List.map n_of_int init; c_worker = (st = 3); c_heap = true; c_owned = false } in
+    match init_state_of cfg with
+    | None -> ()
+    | Some s0 ->
+      let s = ref s0 in
+      let emit t = print_endline t; s := fst (astep !s (parse_aop !s t)) in
+      let near = len - 1 - rnd 12 in
+      emit (Printf.sprintf "adv P %d" near);
+      if st = 3 then emit (Printf.sprintf "adv W %d" near);
+      emit (Printf.sprintf "adv C %d" near);
+      arand_body g false !s (lo + rnd (hi - lo + 1)) 14
   done
 
 
@@ -814,6 +844,7 @@ let () =
   | _ :: "seq" :: files -> List.iter run_file files
   | _ :: "aseq" :: files -> List.iter arun_file files
   | [_; "arand"; seed; count; lo; hi] -> gen_arand (int_of_string seed) (int_of_string count) (int_of_string lo) (int_of_string hi)
+  | [_; "varand"; seed; count; lo; hi] -> gen_varand (int_of_string seed) (int_of_string count) (int_of_string lo) (int_of_string hi)
   | _ :: "spec" :: files -> List.iter spec_file files
   | [_; "rand"; seed; count; lo; hi] -> gen_rand (int_of_string seed) (int_of_string count) (int_of_string lo) (int_of_string hi)
   | [_; "rando"; seed; count; lo; hi] -> force_owned := true; gen_rand (int_of_string seed) (int_of_string count) (int_of_string lo) (int_of_string hi)
